@@ -6,15 +6,14 @@ From IV Require Import Base.Bytes Base.BytesFacts Model.StoreSpec Model.StoreSpe
 Import ListNotations.
 Local Open Scope nat_scope.
 
-Theorem backends_equivalent_nolimit cfg ticks ops :
-  c_cap cfg = 0 -> c_max cfg = 0%N -> file_fresh cfg (file_init ticks, []) ops ->
+(** [backends_equivalent]: for every cap (the file store has no size limit) the two back-end
+    models give the same observations and events, by handle, on every history. *)
+Theorem backends_equivalent cfg ticks ops :
+  c_max cfg = 0%N -> file_fresh cfg (file_init ticks, []) ops ->
   run_mem cfg ops = run_file cfg ticks ops.
 Proof.
-  intros Hc Hm Hf. rewrite mem_refines_spec_nolimit by assumption. symmetry. apply file_refines_spec; assumption.
+  intros Hm Hf. rewrite mem_refines_spec. symmetry. apply file_refines_spec; assumption.
 Qed.
-
-Definition backends_equivalent_stmt : Prop :=
-  forall cfg ticks ops, c_max cfg = 0%N -> file_fresh cfg (file_init ticks, []) ops -> run_mem cfg ops = run_file cfg ticks ops.
 
 (** A listing is in strictly increasing handle order, i.e. in arrival order, oldest first;
     in particular no handle (hence no id) occurs twice. *)
